@@ -4,6 +4,7 @@ import (
 	"bytes"
 	"crypto/sha256"
 	"fmt"
+	"github.com/go-i2p/common/keys_and_cert"
 
 	"github.com/go-i2p/common/base64"
 	"github.com/go-i2p/common/destination"
@@ -102,6 +103,43 @@ func runC07(c *Ctx) {
 			if e1 == nil && e2 == nil {
 				c.Check("single_byte_difference_changes_identity", ri1.Equal(ri2) == !differ, "RouterIdentity.Equal", [][]byte{in, m}, "", fmt.Sprintf("byte %d changed: Equal=%v", pos, ri1.Equal(ri2)))
 			}
+		}
+	}
+	// identities assembled from their parts (exported fields, as the key-generation code of a
+	// router does) with every padding shape the constructor lets through: whatever Bytes() then
+	// is, hash and addresses are those of exactly these bytes, and an Equals() re-parsed copy
+	// shares them
+	for i := 0; i < c.N(40, 600); i++ {
+		id := genDestIdent(r)
+		src, _, err := keys_and_cert.ReadKeysAndCert(id.Encode())
+		if err != nil || src == nil {
+			continue
+		}
+		for _, pad := range [][]byte{nil, {}, cp(src.Padding), cp(src.Padding[:len(src.Padding)/2]), cat(src.Padding, r.Bytes(5)), make([]byte, len(src.Padding))} {
+			k := &keys_and_cert.KeysAndCert{KeyCertificate: src.KeyCertificate, ReceivingPublic: src.ReceivingPublic, Padding: pad, SigningPublic: src.SigningPublic}
+			d, derr := destination.NewDestination(k)
+			if derr != nil || d == nil {
+				continue
+			}
+			b, berr := d.Bytes()
+			if berr != nil {
+				continue
+			}
+			want := sha256.Sum256(b)
+			hh, herr := d.Hash()
+			a, aerr := d.Base32Address()
+			want32 := bitEncode(want[:], 5, alpha32, 8, false) + ".b32.i2p"
+			ok := herr == nil && hh == want && aerr == nil && a == want32
+			detail := fmt.Sprintf("padding of %d bytes (type's padding: %d): hash ok=%v address ok=%v", len(pad), len(src.Padding), hh == want, a == want32)
+			if d2, rem, perr := destination.ReadDestination(b); perr == nil && len(rem) == 0 && d.Equals(&d2) {
+				h2, _ := d2.Hash()
+				a2, _ := d2.Base32Address()
+				if h2 != hh || a2 != a {
+					ok = false
+					detail += "; the re-parsed copy is Equals() but has another hash/address"
+				}
+			}
+			c.Check("hash_and_addresses_of_wire_bytes", ok, "NewDestination(parts).Hash/Base32Address", [][]byte{b, i64(int64(len(pad)))}, "", detail)
 		}
 	}
 	for i := 0; i < c.N(250, 8000); i++ {
